@@ -141,7 +141,7 @@ void parallel_for_dynamicMultiGroupImpl(
     if (gIdx >= effectiveGroups) {
       gIdx = effectiveGroups - 1;
     }
-    worker(*it, gIdx);
+    runCallerShare(taskSet, [&]() { worker(*it, gIdx); });
     taskSet.wait();
   }
 }
@@ -238,7 +238,7 @@ void parallel_for_dynamicImpl(
   if (wait) {
     auto it = states.begin();
     std::advance(it, static_cast<ptrdiff_t>(numToLaunch));
-    worker(*it);
+    runCallerShare(taskSet, [&]() { worker(*it); });
     taskSet.wait();
   }
 }
